@@ -110,7 +110,7 @@ def run(tier, seed):
         evs, todo = {}, list(ch)
         while todo:       # the driver stops after a call that hangs; it is restarted with the cases after that one
             inp = "\n".join(json.dumps({k: c[k] for k in ("id", "ctl", "args")}, separators=(",", ":")) for c in todo) + "\n"
-            p = subprocess.run([vdrive, "c15"], input=inp.encode(), capture_output=True, timeout=1800)
+            p = subprocess.run([vdrive, "c15"], input=inp.encode(), capture_output=True, cwd=common.scratch(), timeout=1800)
             if p.returncode != 0:
                 raise common.Infra(f"vdrive c15 exited {p.returncode}: {p.stderr.decode(errors='replace')[-2000:]}")
             got = 0
